@@ -267,6 +267,7 @@ private:
     );
 
     void refreshRawBuffer();
+    void loadInitialRawBytes();
 
     void setTranscoder
     (
